@@ -346,6 +346,8 @@ type req6abs struct {
 	sid   string
 	depth int
 	nocid bool
+	known bool   // the client is the one listed in the generated lease files (00:11:22:33:44:55)
+	ias   string // "" (an IA_NA or none, at random) | "ta" (IA_TA only) | "ta+pd" | "na+ta"
 }
 
 func sidFor(rel string, ownDUID []byte) dhcpv6.DUID {
@@ -378,8 +380,20 @@ func sidFor(rel string, ownDUID []byte) dhcpv6.DUID {
 func buildPlug6(a req6abs, ownDUID []byte, r *rand.Rand) (dhcpv6.DHCPv6, dhcpv6.DHCPv6, error) {
 	m := &dhcpv6.Message{MessageType: dhcpv6.MessageType(a.typ)}
 	r.Read(m.TransactionID[:])
-	if !a.nocid {
+	if a.known {
+		m.AddOption(dhcpv6.OptClientID(&dhcpv6.DUIDLL{HWType: 1, LinkLayerAddr: net.HardwareAddr{0x00, 0x11, 0x22, 0x33, 0x44, 0x55}}))
+	} else if !a.nocid {
 		m.AddOption(dhcpv6.OptClientID(duidFor(r.Intn(5), r)))
+	}
+	switch a.ias {
+	case "ta":
+		m.AddOption(&dhcpv6.OptIATA{IaId: [4]byte{0, 0, 0, 9}})
+	case "ta+pd":
+		m.AddOption(&dhcpv6.OptIATA{IaId: [4]byte{0, 0, 0, 9}})
+		m.AddOption(&dhcpv6.OptIAPD{IaId: [4]byte{0, 0, 0, 8}})
+	case "na+ta":
+		m.AddOption(&dhcpv6.OptIANA{IaId: [4]byte{0, 0, 0, 7}})
+		m.AddOption(&dhcpv6.OptIATA{IaId: [4]byte{0, 0, 0, 9}})
 	}
 	codes := []dhcpv6.OptionCode{}
 	for _, c := range a.oro {
@@ -395,7 +409,7 @@ func buildPlug6(a req6abs, ownDUID []byte, r *rand.Rand) (dhcpv6.DHCPv6, dhcpv6.
 	if d := sidFor(a.sid, ownDUID); d != nil {
 		m.AddOption(dhcpv6.OptServerID(d))
 	}
-	if r.Intn(2) == 0 {
+	if a.ias == "" && r.Intn(2) == 0 {
 		m.AddOption(&dhcpv6.OptIANA{IaId: [4]byte{0, 0, 0, 1}})
 	}
 	var outer dhcpv6.DHCPv6 = m
@@ -772,6 +786,9 @@ func runPluginOne(t *Trace, pl string, proto int, args []string, reqs string, se
 		bat := []req6abs{
 			{typ: 1, oro: []int{23, 59, 60}, sid: "none"}, {typ: 3, oro: []int{23}, sid: "same"}, {typ: 5, sid: "none"}, {typ: 1, sid: "none", depth: 2, oro: []int{59}},
 			{typ: 11, oro: []int{23, 60}, sid: "none"}, {typ: 1, sid: "none", nocid: true}, {typ: 6, sid: "differs"}, {typ: 8, sid: "same", depth: 1},
+			// the client a generated lease file lists, with every layout of identity associations
+			{typ: 1, sid: "none", known: true, ias: "ta"}, {typ: 3, sid: "same", known: true, ias: "ta+pd", depth: 1}, {typ: 1, sid: "none", known: true, ias: "na+ta"},
+			{typ: 5, sid: "same", known: true}, {typ: 1, sid: "none", ias: "ta"},
 		}
 		for _, a := range bat {
 			observe6(t, pl, args, h6, a, ownDUID, r, cfg)
@@ -975,6 +992,11 @@ func tableConfigs() []struct {
 		{"searchdomains", 4, []string{"example.org"}}, {"searchdomains", 4, []string{"a.example.org", "b.example.net", "c"}},
 		{"searchdomains", 6, []string{"example.org"}}, {"searchdomains", 6, []string{"a.example.org", "corp.example.net"}},
 		{"staticroute", 4, []string{"10.0.0.0/8,10.0.0.1", "10.0.0.0/24,10.0.0.2", "0.0.0.0/0,10.0.0.254", "0.0.0.0/1,10.0.0.3", "10.0.0.0/16,10.0.0.1"}},
+		// lists are ordered (the first router / name server is the preferred one): configurations that are NOT in ascending order
+		{"router", 4, []string{"192.168.1.254", "192.168.1.1", "192.168.1.129"}}, {"dns", 4, []string{"9.9.9.9", "1.1.1.1", "8.8.8.8", "1.1.1.1"}},
+		{"dns", 6, []string{"2606:4700:4700::1111", "2001:4860:4860::8888", "2001:4860:4860::8844"}},
+		{"searchdomains", 4, []string{"z.example.org", "a.example.org", "m.example.org"}}, {"searchdomains", 6, []string{"z.example.org", "a.example.org"}},
+		{"staticroute", 4, []string{"192.168.7.0/25,10.0.0.9", "10.1.0.0/16,10.0.0.1", "0.0.0.0/0,10.0.0.254"}},
 		{"staticroute", 4, []string{"10.1.130.3/17,10.0.0.1"}}, {"staticroute", 4, []string{"192.168.1.77/26,10.0.0.9", "172.17.0.0/12,10.0.0.1", "10.9.8.7/16,10.0.0.2"}},
 		{"server_id", 4, []string{"::ffff:192.0.2.1"}}, {"server_id", 4, []string{"0:0:0:0:0:ffff:c000:201"}},
 		{"router", 4, []string{"::ffff:10.0.0.1"}}, {"dns", 4, []string{"::ffff:8.8.8.8", "1.1.1.1"}}, {"netmask", 4, []string{"::ffff:255.255.255.0"}},
